@@ -11,6 +11,7 @@ package world
 import (
 	"fmt"
 	"strconv"
+	"strings"
 	"time"
 
 	v1 "k8s.io/api/core/v1"
@@ -54,6 +55,7 @@ type Node struct {
 	Taints  []Taint           `json:"taints"`
 	Ready   int               `json:"ready"`
 	Unsched int               `json:"unsched"`
+	Ext     map[string]int    `json:"ext"` // allocatable MIG instances / extended resources by resource name
 }
 
 type Queue struct {
@@ -129,6 +131,7 @@ type Pod struct {
 	Labels map[string]string `json:"labels"` // pod labels (matched by (anti-)affinity terms)
 	PodAff []PodTerm         `json:"podAff"`
 	PodAnt []PodTerm         `json:"podAnt"`
+	Ext    map[string]int    `json:"ext"` // requested MIG instances / extended resources by resource name
 }
 
 // PodTerm is a required pod (anti-)affinity term: label key=val on other pods, topology key.
@@ -174,6 +177,9 @@ func (sc *Scenario) Normalize() {
 		if n.Taints == nil {
 			n.Taints = []Taint{}
 		}
+		if n.Ext == nil {
+			n.Ext = map[string]int{}
+		}
 	}
 	if sc.Topo.Levels == nil {
 		sc.Topo.Levels = []string{}
@@ -202,6 +208,9 @@ func (sc *Scenario) Normalize() {
 		}
 		if p.Labels == nil {
 			p.Labels = map[string]string{}
+		}
+		if p.Ext == nil {
+			p.Ext = map[string]int{}
 		}
 		if p.PodAff == nil {
 			p.PodAff = []PodTerm{}
@@ -251,6 +260,12 @@ func BuildNode(n *Node) *v1.Node {
 	}
 	if n.Gpus > 0 {
 		alloc[commonconstants.NvidiaGpuResource] = qty(n.Gpus, "")
+	}
+	for r, c := range n.Ext {
+		alloc[v1.ResourceName(r)] = qty(c, "")
+		if strings.HasPrefix(r, "nvidia.com/mig-") {
+			labels[commonconstants.MigStrategyLabel] = "mixed"
+		}
 	}
 	node := &v1.Node{
 		ObjectMeta: metav1.ObjectMeta{Name: n.Name, Labels: labels, UID: types.UID("node-" + n.Name)},
@@ -380,6 +395,9 @@ func BuildPod(sc *Scenario, i int, gen int, now time.Time) *v1.Pod {
 	}
 	if p.Gpu > 0 {
 		req[commonconstants.NvidiaGpuResource] = qty(p.Gpu, "")
+	}
+	for r, c := range p.Ext {
+		req[v1.ResourceName(r)] = qty(c, "")
 	}
 	labels := map[string]string{}
 	for k, v := range p.Labels {
